@@ -88,6 +88,10 @@ def cases(tier):
         for t, nt in radials:
             for cart in (False, True):
                 out.append({"b": str(nb), "o": str(no), "t": t, "cartesian": cart, "n_expected": nb * no * nt})
+    # the one algorithm that refuses most sizes: admissible and non-admissible fulldiv names
+    for bname, nb in (("fulldiv_8", 8), ("fulldiv_5", 5), ("fulldiv_12", 12), ("fulldiv_3", 3)):
+        for no, (t, nt), cart in ((3, radials[1], False), (1, radials[0], False), (4, radials[1], True)):
+            out.append({"b": bname, "o": str(no), "t": t, "cartesian": cart, "n_expected": nb * no * nt})
     if tier == "thorough":
         for nb, no in itertools.product(range(1, 9), range(1, 9)):
             if nb <= 5 and no <= 5:
